@@ -303,13 +303,15 @@ fn complete_option(
                             comp.add_prefix(format!("-{leading_flags}{sep}"))
                         }),
                 );
-            } else {
+            } else if arg.to_value().is_ok() {
                 completions.extend(
                     shorts_and_visible_aliases(cmd)
                         .into_iter()
                         .map(|comp| comp.add_prefix(format!("-{leading_flags}"))),
                 );
             }
+            // otherwise the cluster ends in bytes that are not UTF-8: `leading_flags` is only the part
+            // in front of them, and nothing built from it would extend the word being completed
         }
     }
     completions
